@@ -39,12 +39,14 @@ def run(tier, work, replay=None):
     v.add_tlc(res2, "Variables, as built (deviation toplevel_serialize_whole)")
     traces, owners = [], []
     n = 0
+    all_cases = cases
     for style, scalars in IMPORT_STYLES.items():
         for variant, opts in (("async", {"async_client": True}), ("sync", {"async_client": False})):
             if tier == "quick" and style != "relative" and variant == "async":
                 continue
             vc.SCALARS_CFG.clear()
             vc.SCALARS_CFG.update(scalars)
+            cases = [c for c in all_cases if opts["async_client"] or not c["pos"].startswith("sub")]
             job, r, sdl = vc.generate_project(work, cases, opts, f"{style}_{variant}")
             if r["exc_class"]:
                 v.violation({"variant": variant, "style": style, "stage": "generate"}, f"gen_crash:{r['exc_class']}", r["exc_msg"])
